@@ -34,13 +34,25 @@ import (
 // body the Transport closed without reading from it can still be sent by a retry.
 type vfCliBody struct {
 	mu    sync.Mutex
+	ridx  int // request number: byte at offset o is vfCliPat(ridx, o)
+	off   int // bytes handed to the Transport so far
 	avail int
 	eof   bool
 	gen   int // bumped by Close
 	wake  chan struct{}
 }
 
-func vfCliNewBody() *vfCliBody { return &vfCliBody{wake: make(chan struct{})} }
+func vfCliPat(r, o int) byte { return byte((o*7 + r*13) % 251) }
+
+func vfCliPattern(r, n int) string {
+	b := make([]byte, n)
+	for i := range b {
+		b[i] = vfCliPat(r, i)
+	}
+	return string(b)
+}
+
+func vfCliNewBody(ridx int) *vfCliBody { return &vfCliBody{ridx: ridx, wake: make(chan struct{})} }
 
 func (b *vfCliBody) kick() {
 	close(b.wake)
@@ -63,8 +75,9 @@ func (b *vfCliBody) Read(p []byte) (int, error) {
 				n = b.avail
 			}
 			for i := 0; i < n; i++ {
-				p[i] = 'v'
+				p[i] = vfCliPat(b.ridx, b.off+i)
 			}
+			b.off += n
 			b.avail -= n
 			b.mu.Unlock()
 			return n, nil
@@ -86,17 +99,11 @@ func (b *vfCliBody) Close() error {
 	return nil
 }
 
-func (b *vfCliBody) add(n int) {
+func (b *vfCliBody) add(n int, eof bool) {
 	b.mu.Lock()
 	defer b.mu.Unlock()
 	b.avail += n
-	b.kick()
-}
-
-func (b *vfCliBody) end() {
-	b.mu.Lock()
-	defer b.mu.Unlock()
-	b.eof = true
+	b.eof = b.eof || eof
 	b.kick()
 }
 
@@ -115,6 +122,8 @@ type vfCliReq struct {
 	gmu      sync.Mutex
 	gated    []*vfCliBody // every gated body handed to the Transport (one per attempt)
 	ended    bool         // guarded by gmu: bclose was executed
+	total    int          // length of the request body
+	supplied int          // guarded by gmu: body bytes the script has made available so far
 	conn     *vfCliConn   // connection and stream of the latest HEADERS seen for this request
 	sid      uint32
 	open     bool // driver bookkeeping for choosing commands only: stream not yet closed
@@ -240,7 +249,11 @@ func (d *vfCli) settle() {
 					c.ids = append(c.ids, f.StreamID)
 				}
 			case *DataFrame:
-				d.emit(map[string]any{"e": "e_data", "c": c.idx, "s": int(f.StreamID), "n": int(f.Length), "es": f.StreamEnded()})
+				ev := map[string]any{"e": "e_data", "c": c.idx, "s": int(f.StreamID), "n": len(f.Data()), "es": f.StreamEnded(), "b0": 0, "b1": 0}
+				if pay := f.Data(); len(pay) > 0 {
+					ev["b0"], ev["b1"] = int(pay[0]), int(pay[len(pay)-1])
+				}
+				d.emit(ev)
 			case *RSTStreamFrame:
 				d.emit(map[string]any{"e": "e_rst", "c": c.idx, "s": int(f.StreamID), "code": int(f.ErrCode)})
 				if r := c.owner[f.StreamID]; r != nil && r.sid == f.StreamID && r.conn == c {
@@ -274,18 +287,18 @@ func (d *vfCli) newRequest(r *vfCliReq) *http.Request {
 	url := "https://dummy.tld/r" + strconv.Itoa(r.idx)
 	var req *http.Request
 	gated := func() io.ReadCloser {
-		b := vfCliNewBody()
+		b := vfCliNewBody(r.idx)
 		r.gmu.Lock()
-		b.eof = r.ended // the script already ended this request's body: a replay ends at once
+		b.avail, b.eof = r.supplied, r.ended // a replay (GetBody) starts again at the first byte
 		r.gated = append(r.gated, b)
 		r.gmu.Unlock()
 		return b
 	}
 	switch r.body {
 	case "gb": // replayable: NewRequest sets GetBody for a strings.Reader
-		req, _ = http.NewRequest("POST", url, strings.NewReader("hello"))
+		req, _ = http.NewRequest("POST", url, strings.NewReader(vfCliPattern(r.idx, r.total)))
 	case "once": // one-shot, immediately available
-		req, _ = http.NewRequest("POST", url, vfCliOnce{strings.NewReader("hello")})
+		req, _ = http.NewRequest("POST", url, vfCliOnce{strings.NewReader(vfCliPattern(r.idx, r.total))})
 	case "ggb": // replayable, bytes supplied by the script
 		req, _ = http.NewRequest("POST", url, gated())
 		req.GetBody = func() (io.ReadCloser, error) { return gated(), nil }
@@ -315,8 +328,13 @@ func (d *vfCli) do(cmd vfCliCmd) bool {
 			return false
 		}
 		r := &vfCliReq{idx: len(d.reqs) + 1, body: cmd.Body}
-		if r.body == "" || r.body == "none" {
+		switch r.body {
+		case "", "none":
 			r.body = "none"
+		case "gb", "once":
+			r.total = 5
+		default:
+			r.total = 20
 		}
 		if cmd.E == "starton" {
 			c := d.conn(cmd.C)
@@ -325,11 +343,11 @@ func (d *vfCli) do(cmd vfCliCmd) bool {
 			}
 			r.direct = c.idx
 			d.reqs = append(d.reqs, r)
-			d.emit(map[string]any{"e": "starton", "r": r.idx, "c": c.idx, "body": r.body})
+			d.emit(map[string]any{"e": "starton", "r": r.idx, "c": c.idx, "body": r.body, "len": r.total})
 			r.rt = c.tc.roundTrip(d.newRequest(r))
 		} else {
 			d.reqs = append(d.reqs, r)
-			d.emit(map[string]any{"e": "start", "r": r.idx, "body": r.body})
+			d.emit(map[string]any{"e": "start", "r": r.idx, "body": r.body, "len": r.total})
 			r.rt = d.tt.roundTrip(d.newRequest(r))
 		}
 	case "burst": // cmd.Max plain requests enter Transport.RoundTrip at the same moment
@@ -344,7 +362,7 @@ func (d *vfCli) do(cmd vfCliCmd) bool {
 		for i := 0; i < k; i++ {
 			r := &vfCliReq{idx: len(d.reqs) + 1, body: "none"}
 			d.reqs = append(d.reqs, r)
-			d.emit(map[string]any{"e": "start", "r": r.idx, "body": r.body})
+			d.emit(map[string]any{"e": "start", "r": r.idx, "body": r.body, "len": r.total})
 			ctx, cancel := context.WithCancel(context.Background())
 			req := d.newRequest(r).WithContext(ctx)
 			rt := &testRoundTrip{t: d.tb, donec: make(chan struct{}), cancel: cancel}
@@ -512,8 +530,18 @@ func (d *vfCli) do(cmd vfCliCmd) bool {
 		if b == nil || r.bclosed || !r.open {
 			return false
 		}
+		r.gmu.Lock()
+		n := r.total - r.supplied
+		if n > 10 {
+			n = 10
+		}
+		r.supplied += n
+		r.gmu.Unlock()
+		if n == 0 {
+			return false
+		}
 		d.emit(map[string]any{"e": "bwrite", "r": r.idx})
-		b.add(10)
+		b.add(n, false)
 	case "bclose":
 		r := r0(d.req(cmd.R))
 		b := d.curBody(r)
@@ -523,9 +551,10 @@ func (d *vfCli) do(cmd vfCliCmd) bool {
 		d.emit(map[string]any{"e": "bclose", "r": r.idx})
 		r.bclosed = true
 		r.gmu.Lock()
-		r.ended = true
+		n := r.total - r.supplied
+		r.supplied, r.ended = r.total, true
 		r.gmu.Unlock()
-		b.end()
+		b.add(n, true) // the rest of the body, then EOF
 		if r.srvEnd {
 			r.open = false
 		}
@@ -590,9 +619,6 @@ func (d *vfCli) finish() {
 		for _, r := range d.reqs {
 			if r.rt == nil || !r.open || !r.conn.live() {
 				continue
-			}
-			if b := d.curBody(r); b != nil {
-				b.end() // body of a retried attempt
 			}
 			if !r.respSent {
 				progress = d.step(vfCliCmd{E: "resp", R: r.idx, Es: true}) || progress
@@ -882,6 +908,12 @@ func vfCliFixed() [][]vfCliCmd {
 		{{St: true}, {E: "start"}, {E: "settings", C: 1, Max: 3}, {E: "start"}, {E: "start"},
 			{E: "settings", C: 1, Max: 1}, {E: "start"}, {E: "resp", R: 1, Es: true}, {E: "resp", R: 2, Es: true},
 			{E: "resp", R: 3, Es: true}, {E: "start"}, {E: "settings", C: 1, Max: 2}, {E: "resp", R: 4, Es: true}},
+		// one-shot body, HEADERS and the first half of the DATA are out, graceful GOAWAY below the
+		// stream: the request may only be re-sent if the new attempt carries the whole body
+		{{St: false}, {E: "start"}, {E: "start", Body: "gonce"}, {E: "bwrite", R: 2},
+			{E: "goaway", C: 1, Lm: "below", R: 2}, {E: "bclose", R: 2}, {E: "resp", R: 2, Es: true}, {E: "resp", R: 1, Es: true}},
+		{{St: false}, {E: "start", Body: "gonce"}, {E: "bwrite", R: 1}, {E: "start"},
+			{E: "goaway", C: 1, Lm: "zero"}, {E: "resp", R: 1, Es: true}, {E: "bclose", R: 1}},
 		// error GOAWAY while only stream 1 is in flight (documented: not retried), then a fresh request
 		{{St: false}, {E: "start"}, {E: "goaway", C: 1, Lm: "zero", Code: 2}, {E: "start"}, {E: "resp", R: 2, Es: true}},
 	}
